@@ -151,6 +151,12 @@ def gen_cases(seed, n):
         cases.append(case([T('Acme', '</script>', 640)], tpl=ti))
     for d in ['plain', '</script>', JS_PH, PH[0] + PH[1], 'café "q" \\']:
         cases.append(case([T('Acme', d, 640), T('Ref', 'r', -192)], tpl=None, views=VIEWSETS[3]))
+    # ---- id stream: random names / view names over the characters the id functions touch ------
+    for i in range(45):
+        nms = {''.join(rnd.choice(['A', 'b', ' ', '_', "'", '"', 'é', '-', '.', '/', '  ', '9']) for _ in range(rnd.randint(1, 7))) for _ in range(5)}
+        vnames = {''.join(rnd.choice(['A', 'b', 'Z', ' ', '_', '-', '9', '/']) for _ in range(rnd.randint(1, 6))).strip() or 'v' for _ in range(3)}
+        views = ''.join(f'[{vn}]\nfilter: True\n\n' for vn in sorted(vnames)) if i % 2 else None
+        cases.append(case([T(nm, 'p', 64 * (k + 1)) for k, nm in enumerate(sorted(nms))], views=views))
     # ---- random stream ---------------------------------------------------------------------
     for i in range(n):
         adversarial = rnd.random() < .75
@@ -690,7 +696,7 @@ def model_check(cases, results, strings_io, facts, tier):
             embed_pool.append((len(h['doc']), ci))
     # embedding: smallest documents first (Coq reads ~15 KB of literals per second), every template and
     # every adversarial class represented, within a byte budget
-    budget = 330000 if tier == 'quick' else 6000000
+    budget = 450000 if tier == 'quick' else 3000000
     embed_pool.sort()
     seen_kinds, rest = set(), []
     for ln, ci in embed_pool:
@@ -844,7 +850,7 @@ def main(tier):
 
     timing['proofs_s'] = round(time.time() - t0, 1)
     t0 = time.time()
-    n = 900 if tier == 'quick' else 20000
+    n = 1300 if tier == 'quick' else 6000
     cases = gen_cases(run.seed, n)
     out = run_cases_impl(cases, facts=True)
     results, facts = out['results'], out['facts']
